@@ -6,6 +6,8 @@ import (
 	"bytes"
 	"fmt"
 	"net/netip"
+	"os"
+	"regexp"
 	"strings"
 	"testing"
 
@@ -45,6 +47,10 @@ type c10World struct {
 	seen map[string]bool
 	ord  map[string]int // datagram bytes -> ordinal in msgs
 	born map[*HostInfo]c10Birth
+	// connection-manager ticks per node since the last event that was not a tick (clamped in the key): what a tick does
+	// depends on how many went before it (the first one only arms the wheel), so two histories that differ in the number
+	// of ticks must not be merged even when nothing visible changed yet
+	cmA, cmB int
 }
 
 func (w *c10World) record() {
@@ -121,12 +127,31 @@ func c10New(t testing.TB, seed int64) *c10World {
 
 func (w *c10World) apply(e string) {
 	switch e {
+	case "cm:a":
+		w.cmA++
+	case "cm:b":
+		w.cmB++
+	default:
+		w.cmA, w.cmB = 0, 0
+	}
+	switch e {
 	case "rehs:a":
 		w.a.hm.StartHandshake(w.b.vpnIP, nil)
 		w.a.settle()
 	case "rehs:b":
 		w.b.hm.StartHandshake(w.a.vpnIP, nil)
 		w.b.settle()
+	case "sim":
+		// simultaneous initiation: both first messages are on the wire before either is delivered (each node ends up with
+		// the tunnel it initiated as primary plus the tunnel the peer's first message created)
+		w.a.hm.StartHandshake(w.b.vpnIP, nil)
+		w.a.settle()
+		w.b.hm.StartHandshake(w.a.vpnIP, nil)
+		w.b.settle()
+	case "data:a":
+		w.a.tunSend(vUDPPacket(w.a.vpnIP, w.b.vpnIP, 1000, 2000, []byte("c10-data")))
+	case "data:b":
+		w.b.tunSend(vUDPPacket(w.b.vpnIP, w.a.vpnIP, 1000, 2000, []byte("c10-data")))
 	case "rehs:a@1969":
 		// a's clock reads 1969 while it builds the first message: the reported time (uint64 of a negative UnixNano) has its
 		// top bit set, i.e. it is NEWER than every ordinary time in the unsigned order the wire format defines
@@ -180,6 +205,12 @@ func (w *c10World) view(n *vnode, peer netip.Addr) string {
 	return fmt.Sprintf("%d%v idx=%d", len(parts), parts, len(hmap.Indexes))
 }
 
+// c10Structural drops the liveness marks from a view: for replays whose tunnel is no longer held the node may legitimately
+// use its existing tunnel (e.g. probe it with a test packet), only tunnels and primary are judged there.
+var c10FlagRe = regexp.MustCompile(` in=(true|false) out=(true|false)`)
+
+func c10Structural(v string) string { return c10FlagRe.ReplaceAllString(v, "") }
+
 func (w *c10World) key() string {
 	// local index values are pseudo-random: strip them from the key, keep structure
 	strip := func(s string) string {
@@ -220,7 +251,7 @@ func (w *c10World) key() string {
 		}
 	}
 	clockMoved := vtime.Now().UnixNano() > newest // a handshake started now would report a newer time than any so far
-	return fmt.Sprintf("moved=%v A:%s%s B:%s%s msgs=%d pendA=%d pendB=%d", clockMoved, strip(w.view(w.a, w.b.vpnIP)), tr(w.a, w.b.vpnIP), strip(w.view(w.b, w.a.vpnIP)), tr(w.b, w.a.vpnIP),
+	return fmt.Sprintf("cm=%d/%d moved=%v A:%s%s B:%s%s msgs=%d pendA=%d pendB=%d", min(w.cmA, 4), min(w.cmB, 4), clockMoved, strip(w.view(w.a, w.b.vpnIP)), tr(w.a, w.b.vpnIP), strip(w.view(w.b, w.a.vpnIP)), tr(w.b, w.a.vpnIP),
 		len(w.msgs), len(w.a.pendingAddrs()), len(w.b.pendingAddrs()))
 }
 
@@ -234,112 +265,133 @@ func TestVerifC10(t *testing.T) {
 	maxTunnels := 0
 	sawRotation := false
 
-	depth := mc.Pick(c, 5, 7)
-	mc.BFSReplay(c, mc.BFSConfig[string]{
-		MaxDepth: depth, Workers: 1, Stop: c.OutOfTime,
-		Label: func(e string) string { return e },
-		Run: func(hist []string) (string, []string) {
-			w := c10New(t, seed)
-			defer w.net.close()
-			for _, e := range hist {
-				w.apply(e)
-			}
-			key := w.key()
-			menu := []string{"rehs:a", "adv", "lost:a", "rehs:b", "cm:b", "rehs:a@1969"}
-			if checked[key] {
-				return key, menu
-			}
-			checked[key] = true
-
-			for _, mg := range w.msgs {
-				dst, peer := w.b, w.a
-				if mg.pkt.To == w.a.udp {
-					dst, peer = w.a, w.b
+	search := func(prefix []string, menu []string, depth int) mc.BFSResult {
+		return mc.BFSReplay(c, mc.BFSConfig[string]{
+			MaxDepth: depth, Workers: 1, Stop: c.OutOfTime,
+			Label: func(e string) string { return e },
+			Run: func(hist []string) (string, []string) {
+				w := c10New(t, seed)
+				defer w.net.close()
+				for _, e := range prefix {
+					w.apply(e)
 				}
-				for _, from := range []netip.AddrPort{mg.pkt.From, foreign} {
-					hmap := dst.f.hostMap
-					hmap.RLock()
-					list := append([]*HostInfo(nil), hmap.unlockedGetHostList(peer.vpnIP)...)
-					var holder *HostInfo
-					for _, hi := range list {
-						if mg.stage == 1 && w.creator(hi) == mg.n {
-							holder = hi
+				for _, e := range hist {
+					w.apply(e)
+				}
+				hist = append(append([]string{}, prefix...), hist...)
+				key := w.key()
+				if os.Getenv("C10_TRACE") != "" && len(prefix) > 0 {
+					hp := func(n *vnode, peer netip.Addr) string {
+						out := ""
+						for _, hi := range n.f.hostMap.unlockedGetHostList(peer) {
+							out += fmt.Sprintf("[L%d init=%v hp=%v]", hi.localIndexId, hi.ConnectionState.initiator, hi.HandshakePacket != nil)
 						}
+						return out
 					}
-					var primary *HostInfo
-					if len(list) > 0 {
-						primary = list[0]
+					fmt.Println("INFO C10TRACE", hist, "A:", w.view(w.a, w.b.vpnIP), hp(w.a, w.b.vpnIP), "B:", w.view(w.b, w.a.vpnIP), hp(w.b, w.a.vpnIP))
+				}
+				if checked[key] {
+					return key, menu
+				}
+				checked[key] = true
+
+				for _, mg := range w.msgs {
+					dst, peer := w.b, w.a
+					if mg.pkt.To == w.a.udp {
+						dst, peer = w.a, w.b
 					}
-					hmap.RUnlock()
-					if len(list) > maxTunnels {
-						maxTunnels = len(list)
-					}
-					before := w.view(dst, peer.vpnIP)
-					dst.conn.take()
-					dst.deliver(from, mg.pkt.Data)
-					out := dst.conn.take()
-					dst.tun.take()
-					after := w.view(dst, peer.vpnIP)
-					replays++
-					detail := map[string]any{"history": fmt.Sprint(hist), "replayed": fmt.Sprintf("m%d stage %d", mg.n, mg.stage), "from": from.String(), "before": before, "after": after}
-					switch {
-					case mg.stage == 1 && holder != nil:
-						heldReplays++
-						if after != before {
-							c.Violation("C10: re-delivered first message whose tunnel is still held changed the responder's tunnels, primary or liveness marks", detail)
-							return key, menu
-						}
-						sawReply := false
-						for _, o := range out {
-							var oh header.H
-							_ = oh.Parse(o.Data)
-							if bytes.Equal(o.Data, w.born[holder].reply) {
-								sawReply = true
-							} else if oh.Type == header.Handshake {
-								detail["emitted"] = vDescribe(o.Data)
-								c.Violation("C10: responder answered a re-delivered first message with something other than its original reply", detail)
+					for _, from := range []netip.AddrPort{mg.pkt.From, foreign} {
+						hmap := dst.f.hostMap
+						hmap.RLock()
+						list := append([]*HostInfo(nil), hmap.unlockedGetHostList(peer.vpnIP)...)
+						var holder *HostInfo
+						for _, hi := range list {
+							if mg.stage == 1 && w.creator(hi) == mg.n {
+								holder = hi
 							}
 						}
-						if !sawReply {
-							c.Violation("C10: responder did not resend its original reply to a re-delivered first message", detail)
+						var primary *HostInfo
+						if len(list) > 0 {
+							primary = list[0]
 						}
-					case mg.stage == 1 && primary != nil:
-						// tunnel created by this message is gone (rotated out / deleted / never accepted)
-						if holderGone := true; holderGone {
-							sawRotation = true
+						hmap.RUnlock()
+						if len(list) > maxTunnels {
+							maxTunnels = len(list)
 						}
-						if primary.ConnectionState.initiator {
-							skippedInitiatorPrimary++ // the statement only protects a tunnel accepted as responder
+						before := w.view(dst, peer.vpnIP)
+						dst.conn.take()
+						dst.deliver(from, mg.pkt.Data)
+						out := dst.conn.take()
+						dst.tun.take()
+						after := w.view(dst, peer.vpnIP)
+						replays++
+						detail := map[string]any{"history": fmt.Sprint(hist), "replayed": fmt.Sprintf("m%d stage %d", mg.n, mg.stage), "from": from.String(), "before": before, "after": after}
+						switch {
+						case mg.stage == 1 && holder != nil:
+							heldReplays++
 							if after != before {
-								return key, menu // instance changed legitimately: stop replaying on it
-							}
-							continue
-						}
-						if uint64(mg.created) <= uint64(primary.lastHandshakeTime) { // (conversions: the field's integer type is the implementation's business)
-							oldReplays++
-							if after != before {
-								c.Violation("C10: a first message not newer than the responder-accepted primary replaced or added a tunnel", detail)
+								c.Violation("C10: re-delivered first message whose tunnel is still held changed the responder's tunnels, primary or liveness marks", detail)
 								return key, menu
 							}
-						} else if after != before {
-							return key, menu // newer message legitimately taken
-						}
-					case mg.stage == 2:
-						stage2Replays++
-						if after != before {
-							c.Violation("C10: a replayed handshake reply changed the tunnels or primary", detail)
-							return key, menu
-						}
-					default:
-						if after != before {
-							return key, menu
+							sawReply := false
+							for _, o := range out {
+								var oh header.H
+								_ = oh.Parse(o.Data)
+								if bytes.Equal(o.Data, w.born[holder].reply) {
+									sawReply = true
+								} else if oh.Type == header.Handshake {
+									detail["emitted"] = vDescribe(o.Data)
+									c.Violation("C10: responder answered a re-delivered first message with something other than its original reply", detail)
+								}
+							}
+							if !sawReply {
+								c.Violation("C10: responder did not resend its original reply to a re-delivered first message", detail)
+							}
+						case mg.stage == 1 && primary != nil:
+							// tunnel created by this message is gone (rotated out / deleted / never accepted)
+							if holderGone := true; holderGone {
+								sawRotation = true
+							}
+							if primary.ConnectionState.initiator {
+								skippedInitiatorPrimary++ // the statement only protects a tunnel accepted as responder
+								if c10Structural(after) != c10Structural(before) {
+									return key, menu // instance changed legitimately: stop replaying on it
+								}
+								continue
+							}
+							if uint64(mg.created) <= uint64(primary.lastHandshakeTime) { // (conversions: the field's integer type is the implementation's business)
+								oldReplays++
+								if c10Structural(after) != c10Structural(before) {
+									c.Violation("C10: a first message not newer than the responder-accepted primary replaced or added a tunnel", detail)
+									return key, menu
+								}
+							} else if c10Structural(after) != c10Structural(before) {
+								return key, menu // newer message legitimately taken
+							}
+						case mg.stage == 2:
+							stage2Replays++
+							if c10Structural(after) != c10Structural(before) {
+								c.Violation("C10: a replayed handshake reply changed the tunnels or primary", detail)
+								return key, menu
+							}
+						default:
+							if c10Structural(after) != c10Structural(before) {
+								return key, menu
+							}
 						}
 					}
 				}
-			}
-			return key, menu
-		},
-	})
+				return key, menu
+			},
+		})
+	}
+	// second search from a NON-initial state: after a simultaneous initiation, with application traffic and connection-manager
+	// ticks on both nodes (what a tick does depends on the traffic marks); every recorded handshake message is replayed in every
+	// state as above
+	r2 := search([]string{"sim"}, []string{"data:a", "data:b", "cm:a", "cm:b", "adv", "rehs:a"}, mc.Pick(c, 4, 6))
+	c.Set("states_after_simultaneous_initiation", r2.States)
+	// (the small search runs first so that the time budget of the main search cannot starve it)
+	search(nil, []string{"rehs:a", "adv", "lost:a", "rehs:b", "cm:b", "rehs:a@1969"}, mc.Pick(c, 5, 7))
 	c.Require(heldReplays > 0 && oldReplays > 0, "replay classes not reached: held=%d old=%d", heldReplays, oldReplays)
 	c.Require(maxTunnels >= 3, "never held several tunnels for one peer (max %d)", maxTunnels)
 	if c.Thorough() {
